@@ -197,7 +197,12 @@ def _loads_xml(string):
 
             ephem = []
             orbit_mapping = {}
-            for statevector in data_tag["stateVector"]:
+            statevectors = data_tag["stateVector"]
+            if isinstance(statevectors, dict):
+                # xml2dict only builds a list when a tag is repeated
+                statevectors = [statevectors]
+
+            for statevector in statevectors:
                 orb = StateVector(
                     [
                         decode_unit(statevector, "X", "km"),
@@ -216,7 +221,12 @@ def _loads_xml(string):
                 ephem.append(orb)
                 orbit_mapping[orb.date] = orb
 
-            for cov in data_tag.get("covarianceMatrix", []):
+            covs = data_tag.get("covarianceMatrix", [])
+            if isinstance(covs, dict):
+                # xml2dict only builds a list when a tag is repeated
+                covs = [covs]
+
+            for cov in covs:
                 date = parse_date(cov["EPOCH"].text, metadata["TIME_SYSTEM"].text)
                 if date in orbit_mapping:
                     orb = orbit_mapping[date]
